@@ -253,6 +253,12 @@ def render(rng, blocks, plain=False, comment_words=("managed by ansible", "lab g
                 out.append(rng.choice(["", "   ", ind + "# " + rng.choice(comment_words), "#"]))
             s = " " if plain else rng.choice([" ", " ", "  ", "\t", "=", " = ", " =", "= "])
             out.append(ind + (KW[a] if plain else spell_kw(rng, KW[a])) + s + str(v))
+        if not plain and rng.random() < 0.06:
+            # an option keyword WITHOUT a value (blank or `=` then end of line), only for options the block does not set:
+            # means nothing (unset); must certainly not make the constructor raise
+            unset = [a for a in KW if a not in opts]
+            if unset:
+                out.append(ind + spell_kw(rng, KW[rng.choice(unset)]) + rng.choice([" ", "  ", " =", "=", "\t"]))
         if not plain and rng.random() < 0.5:
             out.append("")
     nl = "\n" if plain else rng.choice(["\n", "\n", "\n", "\r\n"])
@@ -474,6 +480,8 @@ F_PHOST = "F14-parser-host-word"
 F_PLAST = "F14-parser-last-char"
 F_PEQ = "F14-parser-host-equals"
 F_KH = "F14-known-hosts-fields"
+F_PORT = "F14-empty-port-value"
+EMPTY_PORT = re.compile(r"^[ \t]*port[ \t=]+$", re.I | re.M)
 
 
 def matcher(case):
@@ -484,11 +492,18 @@ def matcher(case):
     text = case.get("text")
     if k == "kh":
         # the only lines recording the name carry a comment field / are separated by more than one blank
-        return F_KH if case.get("only_extra_lines_record") and case.get("got") == ["ok", None] else None
+        if case.get("parser_case"):
+            return F_KH if case.get("odd_spelling") else None
+        if case.get("only_extra_lines_record") and case.get("got") == ["ok", None]:
+            return F_KH
+        # a three-token comment line `# x y` read as an entry for the host `#`
+        return F_KH if case.get("name") == "#" and case.get("comment3") and not case.get("want_any_of") else None
     if has_meta(blocks) and case.get("meta_live"):
         # F14-regex-metachar: a Host pattern contains one of \ [ { ( ) + ^ $ | and the tree does not escape it
         return F_META
     if text is not None and case.get("parser_differs"):
+        if EMPTY_PORT.search(text.replace("\r\n", "\n")):
+            return F_PORT
         if parser_host_word(text):
             return F_PHOST
         if parser_host_equals(text):
@@ -498,7 +513,8 @@ def matcher(case):
         return None
     ent = spec_entries(blocks)
     if k == "raise":
-        return None
+        # a Port keyword with an empty value: int("") in _parse
+        return F_PORT if text is not None and EMPTY_PORT.search(text.replace("\r\n", "\n")) and str(case.get("got", "")).startswith("ValueError") else None
     if k in ("only", "primary", "inherit"):
         # narrow: the real answer must be exactly what the recorded mechanism (finding_lookup) yields
         fk, fv = finding_lookup(blocks, name)
@@ -541,7 +557,8 @@ KH_TYPES = ["ssh-rsa", "ssh-ed25519", "ecdsa-sha2-nistp256", "ssh-dss"]
 
 
 def gen_kh(rng):
-    """-> list of lines: dict(kind=plain|list|hashed|comment|blank|extra, hosts=[names], field, kt, pk, text)"""
+    """-> list of lines: dict(kind=plain|list|hashed|extra|hextra|comment|marker, hosts=[names], field, kt, pk, text);
+    extra / hextra = a plain-or-listed / hashed line in a legal but unusual spelling"""
     n = rng.choice([0, 1, 2, 3, 4, 6])
     lines = []
     for i in range(n):
@@ -557,43 +574,104 @@ def gen_kh(rng):
             hs = [rng.choice(KH_NAMES[:-1])]
             field, kind = kh_hashed_id(rng, hs[0]), "hashed"
         text = f"{field} {kt} {pk}"
-        if kind != "hashed" and rng.random() < 0.12:
-            # legal known_hosts spellings the line regex of SSHKnownHosts._parse does not accept
-            kind, text = "extra", rng.choice([f"{field} {kt} {pk} root@bastion", f"{field}  {kt} {pk}", f"{field} {kt}\t {pk}"])
-        lines.append(dict(kind=kind, hosts=hs, field=field, kt=kt, pk=pk, text=text))
         if rng.random() < 0.15:
-            lines.append(dict(kind="comment", text=rng.choice(["# comment", "#", "", "# a b c d"])))
+            # legal known_hosts spellings: trailing comment field, runs of blanks / tabs, leading blanks, trailing blanks,
+            # key types with @ and . (sk-...@openssh.com)
+            if rng.random() < 0.25 and kind != "hashed":
+                kt = "sk-ssh-ed25519@openssh.com"
+            kind = "hextra" if kind == "hashed" else "extra"
+            text = rng.choice([f"{field} {kt} {pk} root@bastion", f"{field}  {kt} {pk}", f"{field} {kt}\t {pk}", f"{field}\t{kt}\t{pk}\tadded by ops 2024",
+                               f"  {field} {kt} {pk}", f"{field} {kt} {pk}  ", f"{field} {kt} {pk} # c"])
+            if kt.startswith("sk-") and text == f"{field} {kt} {pk}":
+                text += " "
+        lines.append(dict(kind=kind, hosts=hs, field=field, kt=kt, pk=pk, text=text))
+        r = rng.random()
+        if r < 0.15:
+            lines.append(dict(kind="comment", text=rng.choice(["# comment", "#", "", "# a b c d", "# a b", "#sw1 ssh-rsa AAAA"])))
+        elif r < 0.22:
+            # marker lines: the key is NOT a key to trust for the listed hosts (revoked / a CA key)
+            lines.append(dict(kind="marker", text=rng.choice([f"@revoked {rng.choice(KH_NAMES[:-1])} ssh-rsa AAAAREVOKED{i}",
+                                                              f"@cert-authority *.lab.net,sw1 ssh-ed25519 AAAACA{i} ca@x",
+                                                              f"@revoked {rng.choice(KH_NAMES[:-1])} ssh-rsa AAAAREVOKED{i} why"])))
     return lines
 
 
-def kh_spec(lines, name):
-    """values recorded for `name` (independent: literal listing or HMAC-SHA1 of the name under the entry's salt)"""
-    vals = []
+REC_KINDS = ("plain", "list", "hashed", "extra", "hextra")
+
+
+def kh_recording(lines, name):
+    """the lines that record a key for `name` (independent: literal listing or HMAC-SHA1 of the name under the id's salt);
+    comment lines and marker lines (@revoked / @cert-authority) record nothing"""
+    out = []
     for l in lines:
         if l["kind"] in ("plain", "list", "extra"):
             if name in l["field"].split(","):
-                vals.append((l["kt"], l["pk"]))
-        elif l["kind"] == "hashed":
+                out.append(l)
+        elif l["kind"] in ("hashed", "hextra"):
             _, _, s, h = l["field"].split("|")
             if hmac.compare_digest(kh_hash(base64.b64decode(s), name), base64.b64decode(h)):
-                vals.append((l["kt"], l["pk"]))
-    return vals
+                out.append(l)
+    return out
+
+
+def kh_spec(lines, name):
+    return [(l["kt"], l["pk"]) for l in kh_recording(lines, name)]
+
+
+def real_kh_parse(text):
+    from scrapli.ssh_config import SSHKnownHosts
+    o = SSHKnownHosts.__new__(SSHKnownHosts)
+    o.ssh_known_hosts = text
+    return OrderedDict((k, (v["key_type"], v["public_key"])) for k, v in o._parse().items())
+
+
+def kh_mark_kept(lines):
+    """per line: what does the real line parser make of it?  l["model"] = [(host field, key type, key)] or [] when the
+    line is dropped.  The model gets exactly these (the parser itself is compared with the structured lines separately)."""
+    for l in lines:
+        if "model" in l:
+            continue
+        try:
+            d = real_kh_parse(l["text"] + "\n")
+        except Exception:  # noqa
+            d = {}
+        vals = list(dict.fromkeys(d.values()))
+        l["model"] = [(",".join(k for k in d if d[k] == v), v[0], v[1]) for v in vals]
+
+
+def kh_expected_parse(lines):
+    d = OrderedDict()
+    for l in lines:
+        if l["kind"] in REC_KINDS:
+            for h in l["field"].split(","):
+                d[h] = (l["kt"], l["pk"])
+    return d
+
+
+def kh_odd_spelling(lines):
+    return any(l["kind"] in ("extra", "hextra") or (l["kind"] == "comment" and len(l["text"].split()) == 3) for l in lines)
+
+
+def _kh_model_fields(lines, names):
+    ls, hm = [], []
+    for l in lines:
+        for field, kt, pk in l.get("model", []):
+            ls.append(f"{hx(field)}/{hx(kt)}/{hx(pk)}")
+            for hid in field.split(","):
+                parts = hid.split("|")
+                if hid.startswith("|1|") and len(parts) == 4:
+                    for nm in names:
+                        try:
+                            r = "t" if kh_hash(base64.b64decode(parts[2]), nm) == base64.b64decode(parts[3]) else "f"
+                        except Exception:
+                            r = "x"
+                        hm.append((parts[2], parts[3], nm, r))
+    return ls, hm
 
 
 def kh_model_line(lines, name):
-    ls, hm = [], []
-    for l in lines:
-        if l["kind"] in ("plain", "list", "hashed"):
-            ls.append(f"{hx(l['field'])}/{hx(l['kt'])}/{hx(l['pk'])}")
-        if l["kind"] == "hashed":
-            parts = l["field"].split("|")
-            if len(parts) == 4:
-                try:
-                    r = "t" if kh_hash(base64.b64decode(parts[2]), name) == base64.b64decode(parts[3]) else "f"
-                except Exception:
-                    r = "x"
-                hm.append(f"{hx(parts[2])}/{hx(parts[3])}/{r}")
-    return f"K {hx(name)} {';'.join(ls) or '.'} {';'.join(hm) or '.'}"
+    ls, hm = _kh_model_fields(lines, [name])
+    return f"K {hx(name)} {';'.join(ls) or '.'} {';'.join(f'{hx(a)}/{hx(b)}/{r}' for a, b, _, r in hm) or '.'}"
 
 
 def real_kh(path, name):
@@ -690,20 +768,9 @@ def kh_history_real(path, hist):
 
 
 def kh_history_model_line(lines, hist):
-    ls, hm = [], []
-    for l in lines:
-        if l["kind"] in ("plain", "list", "hashed"):
-            ls.append(f"{hx(l['field'])}/{hx(l['kt'])}/{hx(l['pk'])}")
-        if l["kind"] == "hashed":
-            parts = l["field"].split("|")
-            if len(parts) == 4:
-                for nm in dict.fromkeys(hist):
-                    try:
-                        r = "t" if kh_hash(base64.b64decode(parts[2]), nm) == base64.b64decode(parts[3]) else "f"
-                    except Exception:
-                        r = "x"
-                    hm.append(f"{hx(parts[2])}/{hx(parts[3])}/{hx(nm)}/{r}")
-    return f"HK {','.join(hx(n) for n in hist)} {';'.join(ls) or '.'} {';'.join(hm) or '.'}"
+    ls, hm = _kh_model_fields(lines, list(dict.fromkeys(hist)))
+    return (f"HK {','.join(hx(n) for n in hist)} {';'.join(ls) or '.'} "
+            f"{';'.join(f'{hx(a)}/{hx(b)}/{hx(n)}/{r}' for a, b, n, r in hm) or '.'}")
 
 
 def fallback_data():
@@ -722,11 +789,22 @@ def fallback_data():
                 fuzzy={"meta": sorted(META) if live else []})
 
 
+def is_open(ck, fid):
+    return fid is not None and any(f["id"] == fid and f.get("status") == "open" for f in ck.findings)
+
+
 def load_findings(ck):
+    """findings/C16.json next to the lead's merged known_findings.json.  Where the two disagree on a status, `fixed`
+    wins: a fixed entry suppresses nothing, so a merge that lags behind can never mask a regression."""
     f = VERIF / "findings" / "C16.json"
     if f.exists():
+        mine = {x["id"]: x for x in json.load(open(f))}
         have = {x["id"] for x in ck.findings}
-        ck.findings += [x for x in json.load(open(f)) if x["id"] not in have]
+        for x in ck.findings:
+            m = mine.get(x["id"])
+            if m is not None and m.get("status") == "fixed" and x.get("status") != "fixed":
+                x.update(status="fixed", commit=m.get("commit"), what=m.get("what", x.get("what")))
+        ck.findings += [x for x in mine.values() if x["id"] not in have]
 
 
 def check_case(ck, tmp, D, blocks, name, text, meta_live, stats, plain):
@@ -742,9 +820,15 @@ def check_case(ck, tmp, D, blocks, name, text, meta_live, stats, plain):
     try:
         rp = real_parse(text)
         got_dict = OrderedDict((k, host_obs(v, attrs)) for k, v in rp.items())
-        parser_ok = list(got_dict.items()) == list(exp_dict.items())
+        parser_exact = list(got_dict.items()) == list(exp_dict.items())
+
+        def _n(d):   # an option keyword without a value yields "" where the structured form has None: both are "unset"
+            return [(k, (h, hn or None, tuple(x or None for x in at))) for k, (h, hn, at) in d.items()]
+        parser_ok = parser_exact or _n(got_dict) == _n(exp_dict)
+        if parser_ok and not parser_exact:
+            stats["parser_empty_value_as_empty_string"] += 1
     except Exception as e:  # noqa
-        got_dict, parser_ok = None, False
+        got_dict, parser_ok, parser_exact = None, False, False
     base = {"blocks": [[p, o] for p, o in blocks], "name": name, "text": text, "meta_live": meta_live,
             "parser_differs": not parser_ok}
     indom = ascii_ok(blocks, name)
@@ -752,7 +836,7 @@ def check_case(ck, tmp, D, blocks, name, text, meta_live, stats, plain):
     if not parser_ok:
         stats["parser_differs"] += 1
         fid = matcher({**base, "kind": "parser"})
-        if fid is None:
+        if not is_open(ck, fid):
             ck.disagree("text parser (SSHConfig._parse) vs structured config", {"text": text},
                         f"parsed={list(got_dict.items()) if got_dict is not None else 'raised'} expected={list(exp_dict.items())}")
         else:
@@ -792,13 +876,13 @@ def check_case(ck, tmp, D, blocks, name, text, meta_live, stats, plain):
                          f"lookup({name!r}) selected entry {hosts_r!r}, specification selects {prim_s!r}", matcher)
         else:
             for a in got:
-                if got[a] != exp_full[a]:
+                if (got[a] or None) != (exp_full[a] or None):
                     ck.violation({**base, "kind": "inherit", "attr": a, "got_primary": hosts_r, "got": got[a], "got_value": got[a], "want": exp_full[a]},
                                  f"lookup({name!r}).{a} = {got[a]!r}, specification says {exp_full[a]!r}", matcher)
     stats["cases_with_no_oracle_deviation"] += int(len(ck.violations) + sum(ck.known_hits.values()) == stats["_seen"])
     stats["_seen"] = len(ck.violations) + sum(ck.known_hits.values())
     # --- model request: on the structured form when the parser agreed, else on what the parser produced
-    if parser_ok:
+    if parser_ok and parser_exact:
         entries = entries_of(exp_seq, attrs, dflt)
     elif got_dict is not None:
         entries = list(got_dict.values())
@@ -811,7 +895,8 @@ def check_case(ck, tmp, D, blocks, name, text, meta_live, stats, plain):
 def compare(ck, req, mline, real, indom, metacase, case, stats):
     m = dec_model(mline)
     if real[0] == "exc":
-        same = m[0] == "err" and (("error" in real[1].split(":")[0].lower()) or True)
+        kind = {"KeyError": "keyError", "error": "badRegex", "PatternError": "badRegex"}.get(real[1].split(":")[0])
+        same = m == ("err", kind)
     else:
         same = m == real
     if same:
@@ -943,6 +1028,7 @@ def _run_cases(ck, tier, D, meta_live, stats, tmp):
             cases.append((bl, nm, text, False, (tag,)))
     reqs, pend = [], []
     spec_reqs, spec_pend = [], []
+    dom_reqs = []
     files = OrderedDict()    # text -> dict(blocks, fresh={name: real}, entries, indom)
     for bl, nm, text, plain, tags in cases:
         stats.pop("_entries", None)
@@ -963,6 +1049,7 @@ def _run_cases(ck, tier, D, meta_live, stats, tmp):
             if indom:
                 spec_reqs.append("S" + model_line(nm, entries_of(expected_parse(bl), attrs, D["defaults"]))[1:])
                 spec_pend.append((bl, nm))
+                dom_reqs.append("D" + model_line(nm, entries_of(expected_parse(bl), attrs, D["defaults"]))[1:])
     stats.pop("_entries", None)
     # ---- lookup HISTORIES on one SSHConfig object / through ssh_config_factory: a lookup is a function of (file, name)
     hist_pend = []   # (kind, request index, real answers, case)
@@ -1014,15 +1101,35 @@ def _run_cases(ck, tier, D, meta_live, stats, tmp):
     for lines, nms in kh_cases:
         text = "".join(l["text"] + "\n" for l in lines)
         path = tmp.write(text)
+        kh_mark_kept(lines)
+        odd = kh_odd_spelling(lines)
+        comment3 = any(l["kind"] == "comment" and len(l["text"].split()) == 3 for l in lines)
+        if comment3:
+            nms = sorted(set(nms) | {"#"})
+        # parser differential: what the real line parser makes of the text vs what the lines mean
+        try:
+            got_parse = real_kh_parse(text)
+        except Exception as e:  # noqa
+            got_parse = repr(e)
+        exp_parse = kh_expected_parse(lines)
+        if got_parse != exp_parse or (isinstance(got_parse, dict) and list(got_parse) != list(exp_parse)):
+            stats["kh_parser_differs"] += 1
+            fid = matcher({"kind": "kh", "parser_case": True, "odd_spelling": odd})
+            if is_open(ck, fid):
+                ck.known_hits[fid] += 1
+            else:
+                ck.disagree("text parser (SSHKnownHosts._parse) vs structured lines", {"known_hosts": text},
+                            f"parsed={got_parse} expected={list(exp_parse.items())}")
         kh_fresh = {}
         for nm in nms:
             real = real_kh(path, nm)
             want = kh_spec(lines, nm)
             ck.case(("kh", text, nm), nontrivial=bool(lines), sample={"known_hosts": text[:200], "name": nm, "real": str(real)},
-                    tags=("known_hosts", "kh=" + ("recorded" if want else "absent"), "kh-hashed" if any(l["kind"] == "hashed" for l in lines) else "kh-plain"))
-            rec_kinds = {l["kind"] for l in lines if l["kind"] in ("plain", "list", "extra") and nm in l["field"].split(",")}
-            case = {"kind": "kh", "known_hosts": text, "name": nm, "got": list(real), "want_any_of": want,
-                    "only_extra_lines_record": rec_kinds == {"extra"} and len(want) == len([1 for l in lines if l["kind"] == "extra" and nm in l["field"].split(",")])}
+                    tags=("known_hosts", "kh=" + ("recorded" if want else "absent"), "kh-hashed" if any(l["kind"] in ("hashed", "hextra") for l in lines) else "kh-plain",
+                          "kh-odd-spelling" if odd else "kh-std-spelling", "kh-marker" if any(l["kind"] == "marker" for l in lines) else "kh-no-marker"))
+            rec_kinds = {l["kind"] for l in kh_recording(lines, nm)}
+            case = {"kind": "kh", "known_hosts": text, "name": nm, "got": list(real), "want_any_of": want, "comment3": comment3,
+                    "only_extra_lines_record": bool(rec_kinds) and rec_kinds <= {"extra", "hextra"}}
             if real[0] == "exc":
                 ck.violation(case, f"SSHKnownHosts.lookup({nm!r}) raised {real[1]}", matcher)
             elif want and real[1] not in want:
@@ -1052,12 +1159,14 @@ def _run_cases(ck, tier, D, meta_live, stats, tmp):
     # malformed hashed entries: advisory, model vs code on error-ness only
     adv = []
     for bad in ["|1|abc", "|1|a|b", "|1|YQ==|YQ==|x", "|1||"]:
-        lines = [dict(kind="hashed", hosts=[], field=bad, kt="ssh-rsa", pk="AAAA", text=f"{bad} ssh-rsa AAAA")]
+        lines = [dict(kind="hashed", hosts=[], field=bad, kt="ssh-rsa", pk="AAAA", text=f"{bad} ssh-rsa AAAA", model=[(bad, "ssh-rsa", "AAAA")])]
         path = tmp.write(lines[0]["text"] + "\n")
         adv.append((real_kh(path, "zz"), len(reqs)))
         reqs.append(kh_model_line(lines, "zz"))
     n_main = len(reqs)
     reqs += spec_reqs
+    n_dom = len(reqs)
+    reqs += dom_reqs
     try:
         mout = run_model("C16", reqs)
     except Exception as e:
@@ -1104,6 +1213,14 @@ def _run_cases(ck, tier, D, meta_live, stats, tmp):
                 ck.disagree("Lean Spec.lookup vs Python oracle specification", {"blocks": bl, "name": nm}, f"lean={m} python={pyv}")
             else:
                 stats["spec_renderings_agree"] += 1
+        # share of the generated cases inside the domain of lookup_only_matching_partial (Anchored and NoCross)
+        for j in range(len(dom_reqs)):
+            ml = mout[n_dom + j]
+            a, n, w = "anchored=1" in ml, "nocross=1" in ml, "crossnaming=1" in ml
+            ck.dist["partial-domain=" + ("in" if a and n else "out")] += 1
+            ck.dist["partial-wide-domain=" + ("in" if a and w else "out")] += 1
+            ck.dist["anchored=" + ("yes" if a else "no")] += 1
+            ck.dist["nocross=" + ("yes" if n else "no")] += 1
         for real, idx in adv:
             stats["advisory_malformed_hashed"] += 1
             if (real[0] == "exc") != mout[idx].startswith("err"):
